@@ -113,6 +113,18 @@ def worker(arg):
     rec["dir"] = d
     runner.write_case(d, prog, text=text)
     args = ["-j4"] if seed % 4 == 0 else ["-j1"]
+    # the same program without the limits: if souffle rejects it or does not agree with the model there, the case belongs to
+    # C13 / C01 (e.g. their recorded findings on aggregates that become recursive) and says nothing about size limits
+    with open(os.path.join(d, "p0.dl"), "w") as f:
+        f.write(text0)
+    base = runner.run_souffle(souffle, d, args=args, timeout=180, prog="p0.dl", outdir="unlimited")
+    if runner.crash_key(base) is not None or base.rc != 0:
+        rec.update(status="skip", reason="unlimited-program-" + (runner.crash_key(base) or "rejected (C13)").split(":")[0])
+        return rec
+    bouts, bproblems = runner.read_outputs(d, prog, outdir="unlimited")
+    if bproblems or runner.diff_outputs(prog, bouts, db, ("souffle", "model")):
+        rec.update(status="skip", reason="unlimited-program-differs-from-model (C01)")
+        return rec
     run = runner.run_souffle(souffle, d, args=args, timeout=180)
     ck = runner.crash_key(run)
     if ck == "timeout":
@@ -153,8 +165,10 @@ def worker(arg):
                     desc, "\n  ".join(diffs), text)))
         else:
             reached = [r for r, k in limits.items() if r in outs and len(outs[r]) >= k]
+            # a limited relation that is not an output cannot be seen reaching its limit: no verdict on this clause then
+            unobservable = [r for r in limits if r not in outs]
             alleq = all(outs.get(r) == db[r] for r in scc if r in outs)
-            if not reached and not alleq:
+            if not reached and not alleq and not unobservable:
                 viols.append(("stopped-below-limit", "the stratum was truncated although no limited relation reached its limit: sizes %s (%s)\n%s" % (
                     {r: len(outs[r]) for r in scc if r in outs}, desc, text)))
         rec["counts"]["limit_reached_in_model"] = 0 if below else 1
